@@ -1,5 +1,6 @@
 import Proofs.C12.Commit
 import Proofs.C12.Toy
+import Proofs.E2E.C12
 /-!
 # C12 — taproot outputs commit to exactly their key and script tree (DESIGN.md §3 C12)
 
@@ -221,5 +222,97 @@ example : ∃ t, tapTweak Toy.ops H0 (xOnly sec0) [] = .ok t ∧
     (key_agreement Toy.lawful (H := H0) 1 (by decide) (by decide) sec0 [] 1 (by decide +kernel)
       (Or.inl (by decide +kernel)) (by decide +kernel)).2 1 (by decide +kernel)
   exact ⟨t, h1, h2⟩
+
+end Props.C12
+
+/-! ## End to end: the same theorems about `Btc.EC.ops C`, no `Lawful` hypothesis
+
+`L : Lawful o G` above is discharged by C01's capstone `Btc.C01.lawful_ec`, for every curve with `CurveOk p C` and
+`p ≡ 3 (mod 4)` (proofs: Proofs/E2E/C12.lean).  The internal key is a SEC spelling that parses to a point of the
+`n`-torsion: `pointFromOctets (opsSub K) sec = .ok P`, `opsSub K` being `Btc.EC.ops C` on the underlying pairs with
+`lift_x` answering inside the `n`-torsion (`02 ‖ x(P)` of every such `P` with even y qualifies:
+`Btc.E2E.pointFromOctets_sub_even`).  T1's conclusions are then about `Btc.EC.ops C` ITSELF; T2 compares the private
+tweak over `Btc.EC.ops C` with the public tweak over `opsSub K`, identities of points being the code's `==` on raw
+pairs.  For secp256k1 the only hypotheses are the primality of `p` and of `n`. -/
+namespace Props.C12
+open Btc Btc.EC Btc.C01 Btc.E2E Btc.Taproot Gen.Taproot
+
+/-- T1 on btclib's arithmetic, any curve -/
+theorem completeness_ec {p : ℕ} [Fact p.Prime] {C : Curve} (K : CurveOk p C) (h34 : p % 4 = 3)
+    (hp : C.p ≤ 2 ^ 256) {H : TagHash} (h32 : Len32 H)
+    (sec : Bytes) (tree : Tree) (P : SubPt p C) (t : ℤ) (hdepth : tree.depth ≤ 128)
+    (hP : pointFromOctets (opsSub K) sec = .ok P)
+    (ht : tapTweak (EC.ops C) H (xOnly sec) (root H tree) = .ok t)
+    (hQ : (EC.ops C).isZero (tweakPoint (EC.ops C) P.1 t) = false) :
+    pointFromOctets (EC.ops C) sec = .ok P.1 ∧
+    outputPubkey (EC.ops C) H (some sec) (some tree) = .ok (outKey (EC.ops C) (tweakPoint (EC.ops C) P.1 t)) ∧
+    ∀ i : ℕ, i < (leaves H tree).length →
+      ∃ s c, inputScriptSig (EC.ops C) H (some sec) tree i = .ok (s, c) ∧
+        checkOutputPubkey (EC.ops C) H (outKey (EC.ops C) (tweakPoint (EC.ops C) P.1 t)).1 s c = .ok true :=
+  completeness_raw_ec K h34 hp h32 sec tree P t hdepth hP ht hQ
+
+/-- T2 on btclib's arithmetic, any curve -/
+theorem key_agreement_ec {p : ℕ} [Fact p.Prime] {C : Curve} (K : CurveOk p C) (h34 : p % 4 = 3) {H : TagHash}
+    (d : ℤ) (h0 : 0 < d) (h1 : d < C.n) (sec h : Bytes) (P' : SubPt p C)
+    (hP : pointFromOctets (opsSub K) sec = .ok P')
+    (hsame : (EC.ops C).eq P'.1 ((EC.ops C).mul d C.G) = true ∨
+      (EC.ops C).eq P'.1 ((EC.ops C).neg ((EC.ops C).mul d C.G)) = true)
+    (hx : xOnly sec = beBytes 32 ((EC.ops C).x ((EC.ops C).mul d C.G)).toNat) :
+    (∀ e, tweakedPrvkey (EC.ops C) H d h = .error e ↔ tweakedPubkey (opsSub K) H sec h = .error e) ∧
+    (∀ d2, tweakedPrvkey (EC.ops C) H d h = .ok d2 →
+      ∃ t, tapTweak (EC.ops C) H (xOnly sec) h = .ok t ∧ 0 ≤ d2 ∧ d2 < C.n ∧
+        tweakedPubkey (opsSub K) H sec h = .ok (outKey (EC.ops C) (tweakPoint (EC.ops C) P'.1 t)) ∧
+        (EC.ops C).eq ((EC.ops C).mul d2 C.G) (tweakPoint (EC.ops C) P'.1 t) = true ∧
+        ((EC.ops C).isZero (tweakPoint (EC.ops C) P'.1 t) = false →
+          outKey (EC.ops C) ((EC.ops C).mul d2 C.G) = outKey (EC.ops C) (tweakPoint (EC.ops C) P'.1 t))) :=
+  Btc.E2E.key_agreement_ec K h34 d h0 h1 sec h P' hP hsame hx
+
+/-- what the taproot functions answer over `opsSub K` they answer over `Btc.EC.ops C` -/
+theorem sub_answers_imp_ec {p : ℕ} [Fact p.Prime] {C : Curve} (K : CurveOk p C) (H : TagHash) :
+    (∀ sec h r, tweakedPubkey (opsSub K) H sec h = .ok r → tweakedPubkey (EC.ops C) H sec h = .ok r) ∧
+    (∀ sec tree r, outputPubkey (opsSub K) H sec tree = .ok r → outputPubkey (EC.ops C) H sec tree = .ok r) ∧
+    (∀ sec tree i r, inputScriptSig (opsSub K) H sec tree i = .ok r → inputScriptSig (EC.ops C) H sec tree i = .ok r) ∧
+    (∀ q s c b, checkOutputPubkey (opsSub K) H q s c = .ok b → checkOutputPubkey (EC.ops C) H q s c = .ok b) :=
+  ⟨fun _ _ _ h => tweakedPubkey_opsSub_ok K H h, fun _ _ _ h => outputPubkey_opsSub_ok K H h,
+   fun _ _ _ _ h => inputScriptSig_opsSub_ok K H h, fun _ _ _ _ h => checkOutputPubkey_opsSub_ok K H h⟩
+
+/-- T1 on secp256k1: ONLY primality of `p` and `n` assumed -/
+theorem completeness_secp256k1 (hp : Nat.Prime secp256k1_p) (hn : Nat.Prime secp256k1_n) {H : TagHash}
+    (h32 : Len32 H) (sec : Bytes) (tree : Tree) (P : SecpPt hp) (t : ℤ) (hdepth : tree.depth ≤ 128)
+    (hP : pointFromOctets (secpOps hp hn) sec = .ok P)
+    (ht : tapTweak (EC.ops secp256k1) H (xOnly sec) (root H tree) = .ok t)
+    (hQ : (EC.ops secp256k1).isZero (tweakPoint (EC.ops secp256k1) P.1 t) = false) :
+    pointFromOctets (EC.ops secp256k1) sec = .ok P.1 ∧
+    outputPubkey (EC.ops secp256k1) H (some sec) (some tree) =
+      .ok (outKey (EC.ops secp256k1) (tweakPoint (EC.ops secp256k1) P.1 t)) ∧
+    ∀ i : ℕ, i < (leaves H tree).length →
+      ∃ s c, inputScriptSig (EC.ops secp256k1) H (some sec) tree i = .ok (s, c) ∧
+        checkOutputPubkey (EC.ops secp256k1) H
+          (outKey (EC.ops secp256k1) (tweakPoint (EC.ops secp256k1) P.1 t)).1 s c = .ok true :=
+  Btc.E2E.completeness_secp256k1 hp hn h32 sec tree P t hdepth hP ht hQ
+
+/-- T2 on secp256k1 -/
+theorem key_agreement_secp256k1 (hp : Nat.Prime secp256k1_p) (hn : Nat.Prime secp256k1_n) {H : TagHash}
+    (d : ℤ) (h0 : 0 < d) (h1 : d < secp256k1.n) (sec h : Bytes) (P' : SecpPt hp)
+    (hP : pointFromOctets (secpOps hp hn) sec = .ok P')
+    (hsame : (EC.ops secp256k1).eq P'.1 ((EC.ops secp256k1).mul d secp256k1.G) = true ∨
+      (EC.ops secp256k1).eq P'.1 ((EC.ops secp256k1).neg ((EC.ops secp256k1).mul d secp256k1.G)) = true)
+    (hx : xOnly sec = beBytes 32 ((EC.ops secp256k1).x ((EC.ops secp256k1).mul d secp256k1.G)).toNat) :
+    (∀ e, tweakedPrvkey (EC.ops secp256k1) H d h = .error e ↔ tweakedPubkey (secpOps hp hn) H sec h = .error e) ∧
+    (∀ d2, tweakedPrvkey (EC.ops secp256k1) H d h = .ok d2 →
+      ∃ t, tapTweak (EC.ops secp256k1) H (xOnly sec) h = .ok t ∧ 0 ≤ d2 ∧ d2 < secp256k1.n ∧
+        tweakedPubkey (secpOps hp hn) H sec h =
+          .ok (outKey (EC.ops secp256k1) (tweakPoint (EC.ops secp256k1) P'.1 t)) ∧
+        (EC.ops secp256k1).eq ((EC.ops secp256k1).mul d2 secp256k1.G) (tweakPoint (EC.ops secp256k1) P'.1 t) = true ∧
+        ((EC.ops secp256k1).isZero (tweakPoint (EC.ops secp256k1) P'.1 t) = false →
+          outKey (EC.ops secp256k1) ((EC.ops secp256k1).mul d2 secp256k1.G) =
+            outKey (EC.ops secp256k1) (tweakPoint (EC.ops secp256k1) P'.1 t))) :=
+  Btc.E2E.key_agreement_secp256k1 hp hn d h0 h1 sec h P' hP hsame hx
+
+-- non-vacuity on `y² = x³ + 7` over `F₄₃` (`CurveOk` PROVED, nothing assumed): internal key `02 ‖ 21` (`4•G = (21, 18)`),
+-- three-leaf tree; every hypothesis of T1 is discharged and its verdict is about btclib's arithmetic on raw pairs
+example : ∃ s c, inputScriptSig (EC.ops toyC) toyH0 (some (2 :: beBytes 32 21)) toyTree 2 = .ok (s, c) ∧
+    checkOutputPubkey (EC.ops toyC) toyH0 (outKey (EC.ops toyC) (tweakPoint (EC.ops toyC) (21, 18) 0)).1 s c
+      = .ok true := toy_taproot_complete
 
 end Props.C12
